@@ -300,6 +300,7 @@ def main(argv):
     # a helper effect writes a dependency inside the propagation of a dependency write (oracle only)
     hfail = []
     nh = 0
+    HELPER_RUNS = []
     for variant, vals in (("clamp", [60, 7, 99, 50, 30]), ("reset", [2, 5, 4, 7, 6, 3])):
         hcases = gen_helper(a.tier, rng, vals)
         nh += len(hcases)
@@ -315,11 +316,46 @@ def main(argv):
             if ls[0] == "PANIC" or ls[-1] != "end panics=0":
                 hfail.append({"steps": [variant] + c, "failures": [{"what": "panic", "line": ls[-1]}]})
                 continue
+            HELPER_RUNS.append((variant, c, ls[:-1]))
             f = oracle_latest(c, ls[:-1], variant)
             if f:
                 hfail.append({"steps": [variant + (" (a helper effect created before the resource clamps the dependency to 50)" if variant == "clamp" else
                                                    " (dependencies (q, p): even writes go to q and a helper effect on(q) then resets p to 0, odd writes go to p; fetch value q * 1000 + p)")] + c,
                               "failures": f[:3], "output": ls[:-1]})
+    # ... and the transition system fed with the writes the resource's effect actually saw (one RWrite per fetch started, in order):
+    # value / loading / number of fetches must agree at every step
+    hmis = []
+    try:
+        hist, marks = [], []
+        for variant, c, ls in HELPER_RUNS:
+            ev, mk, prev = [], [], 1
+            for st, l in zip(c, ls[1:]):
+                f = [int(x) for x in dict(p.split("=") for p in l.split())["fetches"].split(",")]
+                ev += [("write", v) for v in f[prev:]]
+                prev = len(f)
+                if st[0] == "complete":
+                    ev.append(st)
+                mk.append(len(ev))
+            hist.append(ev)
+            marks.append(mk)
+        exprs = ["run_resources %s" % glist([glist([("RWrite (%d)%%Z" if e[0] == "write" else "RComplete %d") % e[1] for e in h]) for h in hist[i:i + 200]])
+                 for i in range(0, len(hist), 200)]
+        outs = vlib.coq_eval(PID + "h", pre, exprs, per_file=max(1, (len(exprs) + 15) // 16))
+        hmodel = [b.split("\n") for o in outs for b in o.split("\n==\n")]
+        for (variant, c, ls), mk, ml in zip(HELPER_RUNS, marks, hmodel):
+            # (the initial helper write of `reset` starts a second fetch before the first observation: the model starts with one)
+            if variant == "reset":
+                continue
+            want = [ml[0]] + [ml[k] for k in mk]
+            got = [" ".join(p for p in l.split() if not p.startswith("fetches=")) for l in ls]
+            if want != got:
+                hmis.append({"steps": [variant] + c, "impl": got, "model": want})
+    except (RuntimeError, NameError, IndexError, KeyError) as e:
+        broken.append("model evaluation (helper effect): " + str(e)[-500:])
+    chk.obligation("correspondence: the transition system fed with one write per fetch the implementation started agrees with it at every step of the clamp histories",
+                   not hmis and not any(b.startswith("model evaluation (helper") for b in broken), str(hmis[:1]))
+    if hmis:
+        broken.append("correspondence (helper effect) differs on %d histories" % len(hmis))
     chk.obligation("oracle on %d histories in which a helper effect writes a dependency of the resource inside the propagation of a dependency write (clamp, reset)" % nh,
                    not hfail, str(hfail[:1]))
     mism, orfail = [], list(tfail) + sfail + hfail
